@@ -1,6 +1,7 @@
 package verifh
 
 import (
+	"bytes"
 	"encoding/json"
 	"fmt"
 	"testing"
@@ -55,11 +56,12 @@ func checkC19Fuzz(c c19FuzzCase) error {
 		}
 	}
 	if isPost && c.Method == "POST" {
-		var probe any
-		if json.Unmarshal(c.Body, &probe) != nil && st < 400 {
+		// "syntactically broken" is a matter of the JSON grammar (json.Valid), not of whether Go can hold the value: 1e700 is a
+		// well-formed number that no float64 holds, and {"":1e700} next to a valid request is a well-formed body (F26)
+		if !json.Valid(c.Body) && st < 400 {
 			return fmt.Errorf("POST %s with syntactically broken JSON %q answered %d", c.Path, c.Body, st)
 		}
-		if _, isObj := probe.(map[string]any); !isObj && json.Unmarshal(c.Body, &probe) == nil && probe != nil && st < 400 {
+		if t := bytes.TrimLeft(c.Body, " \t\r\n"); json.Valid(c.Body) && len(t) > 0 && t[0] != '{' && string(bytes.TrimSpace(c.Body)) != "null" && st < 400 {
 			return fmt.Errorf("POST %s with a non-object JSON body %q answered %d", c.Path, c.Body, st)
 		}
 	}
